@@ -322,4 +322,24 @@ def k7_patterns(ctx):
             ctx.ok('K7', 'pattern %r: %d tokens, binds value' % (p, len(toks)), 'data', sample=False)
 
 
-RULES = [('K5', k5_linear), ('K1', k1_inverse), ('K2', k2_definitions), ('K3', k3_kinds), ('K4', k4_walk), ('K6', k6_table), ('K7', k7_patterns)]
+def k8_pure(ctx):
+    """K8 conversion is a function of its inputs: calculate_unit / convert / calculate write no state"""
+    from ..effects import cell_writes, collection_writes, spine_fields
+    ctx.rule('K8', 'unit conversion keeps no memory', floor=3)
+    for rx in (r'DynamicTypeItem::calculate_unit$', r'DynamicTypeItem::convert$', r'^<compiler::dynamic_type::DynamicTypeItem as compiler::DataItem>::calculate$'):
+        b = ctx.facts.one(rx)
+        ctx.fn(b)
+        bad = False
+        for bid, t, method, recv in cell_writes(b):
+            bad = True
+            ctx.finding('K8', '%s/cell-write/%s' % (short_fn(b), method), '%s writes shared state (%s on %s): a conversion result may now depend on earlier conversions, not only on the amount and the unit tables' % (short_fn(b), method, render(recv)[:100]), site=t['loc'])
+        for bid, t, method, recv in collection_writes(b):
+            f = spine_fields(recv)
+            if any(x.startswith('config::SmartCalcConfig.') for x in f):
+                bad = True
+                ctx.finding('K8', '%s/config-write/%s' % (short_fn(b), method), '%s mutates configuration data (%s on %s)' % (short_fn(b), method, render(recv)[:100]), site=t['loc'])
+        if not bad:
+            ctx.ok('K8', '%s writes no shared state' % short_fn(b), 'effects', site=b.loc)
+
+
+RULES = [('K5', k5_linear), ('K1', k1_inverse), ('K2', k2_definitions), ('K3', k3_kinds), ('K4', k4_walk), ('K6', k6_table), ('K7', k7_patterns), ('K8', k8_pure)]
